@@ -61,31 +61,9 @@ func runC13(t *rapid.T) {
 	tr := &c13Trace{Frame: fs, Scramble: scr}
 	tr.Header = rapid.IntRange(0, 3).Draw(t, "header") != 0
 	tr.EmptyNull = rapid.Bool().Draw(t, "emptynull")
-	names := make([]string, len(fs.Cols))
-	for i, c := range fs.Cols {
-		names[i] = c.Name
-	}
-	order := names
-	if rapid.IntRange(0, 2).Draw(t, "usecolumns") == 0 {
-		order = rapid.Permutation(names).Draw(t, "columns")
-		tr.Columns = order
-	}
 	tr.PipeCap = pipeCaps[rapid.IntRange(0, len(pipeCaps)-1).Draw(t, "pipecap")]
 	if big && tr.PipeCap < 4096 {
 		tr.PipeCap = 4096
-	}
-	// A null in an enum column whose declared value set lacks "" has no CSV
-	// form that is a declared value: it can only come back as null, i.e. with
-	// EmptyNull. Reading it back without EmptyNull is rightly an error and
-	// outside what C13 states, so that combination is read with EmptyNull.
-	for _, c := range fs.Cols {
-		if c.Type == "enum" && c.EnumVals != nil && indexOf(c.EnumVals, "") < 0 {
-			for _, p := range c.Strs {
-				if p == nil {
-					tr.EmptyNull = true
-				}
-			}
-		}
 	}
 	core.Eval()
 
@@ -98,6 +76,41 @@ func runC13(t *rapid.T) {
 		t.Fatalf("harness: scramble failed: %v", qf.Err)
 	}
 	src := obs.Of(qf)
+	if len(src.Names) == 0 {
+		return // C13 is about frames with at least one column
+	}
+	if src.Bad != "" {
+		t.Fatalf("harness: derived frame cannot be observed: %s (scramble %+v)", src.Bad, scr)
+	}
+	names := src.Names
+	order := names
+	if rapid.IntRange(0, 2).Draw(t, "usecolumns") == 0 {
+		order = rapid.Permutation(names).Draw(t, "columns")
+		tr.Columns = order
+	}
+	// declared enum values of a (possibly copied) column of the derived frame
+	declared := func(name string) []string {
+		for strings.HasSuffix(name, "_cp") && fs.Col(name) == nil {
+			name = strings.TrimSuffix(name, "_cp")
+		}
+		if c := fs.Col(name); c != nil {
+			return c.EnumVals
+		}
+		return nil
+	}
+	// A null in an enum column whose declared value set lacks "" has no CSV
+	// form that is a declared value: it can only come back as null, i.e. with
+	// EmptyNull. Reading it back without EmptyNull is rightly an error and
+	// outside what C13 states, so that combination is read with EmptyNull.
+	for i, n := range src.Names {
+		if vals := declared(n); src.Types[i] == "enum" && vals != nil && indexOf(vals, "") < 0 {
+			for _, c := range src.Cols[i] {
+				if c == "null" {
+					tr.EmptyNull = true
+				}
+			}
+		}
+	}
 
 	pol, desc := gen.DrawPolicy(t, 2, int64(20+qf.Len()*len(names)), 3)
 	tr.Policy = desc
@@ -120,10 +133,10 @@ func runC13(t *rapid.T) {
 	s.Go("reader", func() {
 		types := map[string]string{}
 		enumVals := map[string][]string{}
-		for _, c := range fs.Cols {
-			types[c.Name] = c.Type
-			if c.Type == "enum" && c.EnumVals != nil {
-				enumVals[c.Name] = c.EnumVals
+		for i, n := range src.Names {
+			types[n] = src.Types[i]
+			if vals := declared(n); src.Types[i] == "enum" && vals != nil {
+				enumVals[n] = vals
 			}
 		}
 		opts := []csv.ConfigFunc{csv.Types(types), csv.EmptyNull(tr.EmptyNull)}
